@@ -112,14 +112,14 @@ var _ = strings.HasPrefix
 //@ loop 0: decreases spec_E() + 2 - (fetched - p.peekCount)
 
 //@ func (*parser).parseRule
-//@ props C11 C13 C04 C07 C01
+//@ props C11 C13 C04 C07 C01 C17 C02 C06 C08
 //@ use STREAM
 //@ results rules
 //@ requires toklst != nil && REP(p) && CUR(p) && p.peekCount <= 1 && SLOT1(p)
 //@ ensures [C13] REP(p) && TOK(p) && p.lex == old(p.lex) && (!isnil(rules) ==> CUR(p) && p.peekCount <= 1 && SLOT1(p) && fetched - p.peekCount > old(fetched - p.peekCount))
 //@ after_stmt [C11] "id := Idendity{" id.Value == int(rune_at(p.current.Value, 0))
 // every alternative starts as a fresh rule of the same left-hand side: no %prec symbol and no right-hand side carried over from the previous alternative
-//@ after_stmt [C04,C07,C01] "rightpart = make([]RightSymOrAction, 0)" rule.PrecSym == "" && rule.LeftPart == Leftpart && len(rule.RightPart) == 0 && len(rightpart) == 0
+//@ after_stmt [C04,C07,C01,C17,C02,C06,C08] "rightpart = make([]RightSymOrAction, 0)" rule.PrecSym == "" && rule.LeftPart == Leftpart && len(rule.RightPart) == 0 && len(rightpart) == 0
 //@ loop 0: invariant REP(p) && CUR(p) && p.peekCount <= 1 && SLOT1(p) && fetched - p.peekCount > old(fetched - p.peekCount)
 //@ loop 0: invariant p.lex == old(p.lex)
 //@ loop 0: decreases spec_E() + 2 - (fetched - p.peekCount)
